@@ -171,7 +171,30 @@ def check_streams(case, part):
         part.violation(case, "a repeated call on the same TheJoker repeated linear-parameter draws of the first call", observed=[d.tolist() for d in draws])
 
 
+def check_bigdraw(case, part):
+    """one large request must not repeat draws anywhere inside it (block-wise drawing with a re-used stream)"""
+    import astropy.units as u
+
+    prior = seams.get_dummy_prior()
+    s = prior.sample(size=case["size"], generate_linear=True, rng=np.random.default_rng(case["seed"]))
+    part.record(case, outcome=(len(s),), nontrivial=True)
+    if len(s) != case["size"]:
+        part.violation(case, "prior.sample returned another number of rows than requested", expected=case["size"], observed=len(s))
+        return
+    for name in ("P", "e", "K", "v0"):
+        v = np.asarray(s[name].value if hasattr(s[name], "value") else s[name])
+        if len(np.unique(v)) != len(v):
+            part.violation(case, f"draws of {name} are repeated inside one prior.sample(size={case['size']}) request "
+                           f"({len(v) - len(np.unique(v))} duplicates): parts of the request share a random stream")
+            return
+    s2 = prior.sample(size=case["size"], generate_linear=True, rng=np.random.default_rng(case["seed"]))
+    if not np.array_equal(s["P"].value, s2["P"].value):
+        part.violation(case, "two large requests with equal seeds differ")
+
+
 def run_case(case, part):
+    if case["kind"] == "bigdraw":
+        return check_bigdraw(case, part)
     if case["kind"] in ("hashseed", "multipool"):
         print("re-run the whole check: this case is a cross-process comparison")
         return
@@ -266,6 +289,8 @@ def build(quick, seed):
                 for nl in (1, 2):
                     for pool in ([["serial"]] if path == "inmem" else [["serial"], ["model", 2, 1, True], ["model", 3, 2, False]]):
                         streams.append(dict(kind="streams", path=path, n=n, n_batches=nb, n_linear=nl, pool=pool, seed=seed))
+    for size in ((20000,) if quick else (20000, 70001, 270000)):
+        streams.append(dict(kind="bigdraw", size=size, seed=3 + seed))
     return hs, pools, streams
 
 
@@ -278,14 +303,14 @@ def main():
         "global generators seeded differently; outputs are compared bitwise per step and the global states before/after every step; a "
         "different seed must change the output. File-path operations x 8 modelled pool schedules and real MultiPool(2): bitwise equal to "
         "the serial pool. Forced-collision stream test: n identical always-accepted rows x batching x pools, two calls on one TheJoker - "
-        "no linear draw may repeat. Separate interpreter launches with PYTHONHASHSEED in {0,1,2,(3,4,5)} must give identical digests and "
+        "no linear draw may repeat; one large prior.sample request (20000; thorough also 70001, 270000 rows) must not repeat a draw inside itself. Separate interpreter launches with PYTHONHASHSEED in {0,1,2,(3,4,5)} must give identical digests and "
         "column order. Non-trivial: history longer than one step / more than one batch.",
     )
     hs, pools, streams = build(chk.quick, chk.seed)
     chk.bounds = {"history_depth": 2 if chk.quick else 3, "histories": len(hs), "pool_cases": len(pools), "stream_cases": len(streams)}
     chk.merge(core.parallel(shard, core.interleave(hs, core.NPROC * 2)))
     chk.merge(core.parallel(shard, core.interleave(pools, core.NPROC)))
-    chk.merge(core.parallel(shard, core.interleave(streams, core.NPROC)))
+    chk.merge(core.parallel(shard, core.interleave(streams[::-1], core.NPROC)))
     chk.merge(multipool(chk))
     chk.merge(hashseed_conformance(chk))
     chk.assumptions += ["stub kernel whose likelihood is a fixed function of the row; pymc's pm.draw(random_seed=Generator) is trusted to be a function of the generator state",
